@@ -193,18 +193,38 @@ Fixpoint dict_of_pairs (acc : list val) (d : list (val * val)) : list (val * val
   | [] => d
   end.
 
+Fixpoint sum_ints (l : list val) : Z :=
+  match l with
+  | VInt z :: r => (z + sum_ints r)%Z
+  | _ :: r => sum_ints r
+  | [] => 0%Z
+  end.
+
 Definition finish (body : forbody) (acc : list val) : val :=
   match body with
   | FDo _ => VNull
   | FYield _ => VList acc
   | FYieldKV _ _ => VDict (dict_of_pairs acc [])
+  | FYieldInto _ RCount => VInt (Z.of_nat (List.length (filter truthy acc)))
+  | FYieldInto _ RSum => VInt (sum_ints acc)
+  | FYieldInto _ RLast => last acc VNull
+  | FYieldInto _ _ => VList acc
+  end.
+
+(* Catamorphism::finish: `first` and `last` of nothing are errors (CataFirst never holds an
+   element: its give breaks out of the loop with it) *)
+Definition finish_res (st : state) (body : forbody) (acc : list val) : result val :=
+  match body with
+  | FYieldInto _ RFirst => throw_err st
+  | FYieldInto _ RLast => match acc with [] => throw_err st | _ => ret st (finish body acc) end
+  | _ => ret st (finish body acc)
   end.
 
 (* what the For arm does with the outcome of evaluate_for *)
 Definition for_result (body : forbody) (r : fres) : result val :=
   match r with
-  | (st, acc, Val _) => ret st (finish body acc)
-  | (st, acc, Sig (SBreak O None)) => ret st (finish body acc)
+  | (st, acc, Val _) => finish_res st body acc
+  | (st, acc, Sig (SBreak O None)) => finish_res st body acc
   | (st, _, Sig (SBreak O (Some v))) => ret st v
   | (st, _, Sig (SBreak (S n) v)) => (st, Sig (SBreak n v))
   | (st, _, Sig (SContinue (S n))) => (st, Sig (SContinue n))
@@ -397,10 +417,21 @@ Section WithRec.
         | (st1, Sig s) => (st1, acc, Sig s)
         | (st1, OutOfFuel) => (st1, acc, OutOfFuel)
         end
+    | FYieldInto b rd =>
+        match rec st fr b with
+        | (st1, Val v) =>
+            match rd with
+            | RFirst => (st1, acc, Sig (SBreak O (Some v)))          (* CataFirst::give *)
+            | RSum => match v with
+                      | VInt _ => (st1, acc ++ [v], Val tt)
+                      | _ => (st1, acc, Sig SUnsupported)
+                      end
+            | _ => (st1, acc ++ [v], Val tt)
+            end
+        | (st1, Sig s) => (st1, acc, Sig s)
+        | (st1, OutOfFuel) => (st1, acc, OutOfFuel)
+        end
     end.
-
-  Definition eval_for_expr (st : state) (cur : nat) (cls : list clause) (body : forbody) : result val :=
-    for_result body (eval_for cls (for_body body) st cur []).
 
   (* Try: only Throw is intercepted; the handler runs in a fresh scope holding the thrown value *)
   Definition eval_try (st : state) (cur : nat) (b : expr) (x : name) (h : expr) : result val :=
@@ -446,6 +477,20 @@ Section WithRec.
         | [VClos _ _ _] => unsupported st        (* `5(f)` is a partial application in Noulith *)
         | _ => throw_err st
         end
+    end.
+
+  (* For: the `into` expression is evaluated first; a function without a catamorphism (a
+     closure, len) is applied afterwards to whatever the loop produced *)
+  Definition eval_for_expr (st : state) (cur : nat) (cls : list clause) (body : forbody) : result val :=
+    match body with
+    | FYieldInto _ (RFun fe) =>
+        bindR (rec st cur fe) (fun st0 fv =>
+          bindR (for_result body (eval_for cls (for_body body) st0 cur []))
+                (fun st2 v => apply_val st2 fv [v]))
+    | FYieldInto _ RLen =>
+        bindR (for_result body (eval_for cls (for_body body) st cur []))
+              (fun st2 v => prim_apply PLen [v] st2)
+    | _ => for_result body (eval_for cls (for_body body) st cur [])
     end.
 
   Definition eval_call (st : state) (cur : nat) (f : expr) (args : list (bool * expr)) : result val :=
@@ -558,6 +603,18 @@ Proof. reflexivity. Qed.
 Example ex_break2 :
   snd (run 20 (EFor [CIter "x" (EList [(false, EInt 1); (false, EInt 2)])]
                  (FYield (EWhile (EInt 1) (EBreak 1 (Some (plus (V "x") (EInt 10)))))))) = Val (VInt 11).
+Proof. reflexivity. Qed.
+
+(* into: a catamorphism (sum), CataFirst leaving the loop at once, a closure applied to the list *)
+Example ex_into :
+  (let r := run 20 (EList [(false, EFor [CIter "x" (EList [(false, EInt 1); (false, EInt 2); (false, EInt 3)])]
+                                        (FYieldInto (ESeq [EPrim PPrint [V "x"]; V "x"] false) RSum));
+                           (false, EFor [CIter "x" (EList [(false, EInt 1); (false, EInt 2); (false, EInt 3)])]
+                                        (FYieldInto (ESeq [EPrim PPrint [V "x"]; V "x"] false) RFirst));
+                           (false, EFor [CIter "x" (EList [(false, EInt 4); (false, EInt 5)])]
+                                        (FYieldInto (V "x") (RFun (ELam [(KPlain, "l", None)] (EPrim PLen [V "l"])))))]) in
+   (snd r, out (fst r)))
+  = (Val (VList [VInt 6; VInt 1; VInt 2]), [[VInt 1]; [VInt 2]; [VInt 3]; [VInt 1]]).
 Proof. reflexivity. Qed.
 
 (* a name bound by a switch arm is gone after the switch; the outer x is untouched *)
